@@ -95,9 +95,7 @@ def spec_function(E, name, vals, aunit="", sep=","):
             T = about(T, vals[1], vals[2] if n > 2 else 0)
         return T
     if name == "skew":
-        if n < 2:
-            return None
-        T = t_skew(tan(ang(vals[0])), tan(ang(vals[1])))
+        T = t_skew(tan(ang(vals[0])), tan(ang(vals[1])) if n > 1 else 0)
         if n > 2:
             T = about(T, vals[2], vals[3] if n > 3 else 0)
         return T
@@ -116,7 +114,7 @@ def spec_function(E, name, vals, aunit="", sep=","):
 
 # arities the SVG / CSS grammar allows (plus the centre extension this library documents for scale/skew*)
 VALID = {"matrix": [6], "translate": [1, 2], "translatex": [1], "translatey": [1], "scale": [1, 2, 3, 4],
-         "scalex": [1], "scaley": [1], "rotate": [1, 2, 3], "skew": [2, 3, 4], "skewx": [1, 2, 3],
+         "scalex": [1], "scaley": [1], "rotate": [1, 2, 3], "skew": [1, 2, 3, 4], "skewx": [1, 2, 3],
          "skewy": [1, 2, 3]}
 ANGLE_FIRST = {"rotate": 1, "skew": 2, "skewx": 1, "skewy": 1}
 SPELL = {"matrix": "matrix", "translate": "translate", "translatex": "translateX", "translatey": "TRANSLATEY",
@@ -147,7 +145,7 @@ def _(E, case):
     m0 = snap(M)
     vals = [E.real("v%d" % i, SMALL) for i in range(n)]
     if name in ("skew", "skewx", "skewy"):
-        for i in range(ANGLE_FIRST[name]):
+        for i in range(min(n, ANGLE_FIRST[name])):
             E.assume(E.cos(angle_radians(E, vals[i], aunit)) != 0)
     text = E.text(fn_text(E, name, vals, aunit), *vals)
     r = E.call(M, "parse", text)
@@ -169,7 +167,7 @@ def _(E, case):
     E.ensure("px_is_user_unit", mat_eq(M, compose(spec_function(E, name, vals), m0)))
 
 
-@family("C04/Matrix.parse/ignored", [("translate", 0), ("skew", 1)], funcs=PARSE_FUNCS)
+@family("C04/Matrix.parse/ignored", [("translate", 0)], funcs=PARSE_FUNCS)
 def _(E, case):
     name, n = case
     M = mk_matrix(E, "M")
